@@ -44,7 +44,7 @@ func (h History) String() string {
 	return strings.Join(s, ";")
 }
 
-// rename swaps the two symmetric back-ends b1 and b2.
+// swapped swaps the two symmetric back-ends b1 and b2.
 func (h History) swapped() History {
 	out := make(History, len(h))
 	for i, o := range h {
@@ -59,14 +59,46 @@ func (h History) swapped() History {
 	return out
 }
 
-// Canon renames b1/b2 by first appearance.
+// swappedF swaps every multi-file back-end that has a replica with its
+// replica (f<shape> <-> f<shape>2): the two serve the same files.
+func (h History) swappedF() History {
+	out := make(History, len(h))
+	for i, o := range h {
+		if s := fsOf[o.B]; s != nil && s.Replica {
+			if o.B == s.providers()[0] {
+				o.B = s.providers()[1]
+			} else {
+				o.B = s.providers()[0]
+			}
+		}
+		out[i] = o
+	}
+	return out
+}
+
+// variants: the history under the symmetries of the providers.
+func (h History) variants() []History {
+	return []History{h, h.swapped(), h.swappedF(), h.swapped().swappedF()}
+}
+
+// Canon renames b1/b2, and the replicas of multi-file back-ends, by first
+// appearance.
 func (h History) Canon() History {
 	for _, o := range h {
 		if o.B == "b1" {
-			return h
+			break
 		}
 		if o.B == "b2" {
-			return h.swapped()
+			h = h.swapped()
+			break
+		}
+	}
+	for _, o := range h {
+		if s := fsOf[o.B]; s != nil && s.Replica {
+			if o.B != s.providers()[0] {
+				h = h.swappedF()
+			}
+			break
 		}
 	}
 	return h
@@ -107,6 +139,16 @@ func newModel() *model {
 
 func (m *model) live(svc string) map[string]bool {
 	out := map[string]bool{}
+	if strings.HasPrefix(svc, "fs:") {
+		// a service of a multi-file back-end: served by the back-ends of its
+		// shape that implement it
+		for _, p := range fsProv[svc] {
+			if m.conns[p] {
+				out[p] = true
+			}
+		}
+		return out
+	}
 	if svc == "D1" || svc == "D2" {
 		// bd and bd2 serve both services of the file, bh only D1; bd serves
 		// what its reflection listed when it was (last) registered
@@ -158,6 +200,16 @@ func (m *model) sig() string {
 	if m.conns["bd"] {
 		parts = append(parts, fmt.Sprintf("rev%d", m.bdReg))
 	}
+	var fs []string
+	for p := range m.conns {
+		if fsOf[p] != nil {
+			fs = append(fs, p)
+		}
+	}
+	if len(fs) > 0 {
+		sort.Strings(fs)
+		parts = append(parts, "FS{"+strings.Join(fs, ",")+"}")
+	}
 	return strings.Join(parts, "")
 }
 
@@ -197,7 +249,7 @@ type reqSpec struct {
 	Want []string
 }
 
-var methods = []struct{ full, svc string }{
+var methods = []methodRef{
 	{"/vf.rs.A/Get", "A"}, {"/vf.rs.A/Put", "A"}, {"/vf.rs.B/Get", "B"}, {"/vf.rs.C/Get", "C"},
 	{"/vf.rs.D1/Get", "D1"}, {"/vf.rs.D2/Get", "D2"},
 	{"/vf.rs.A/Extra", "AX"},
@@ -378,6 +430,10 @@ type Outcome struct {
 	// longer live (its rules outlived DropConn). Tolerated: the statement
 	// does not oblige RegisterConn to succeed.
 	StaleErrs int
+	// file-structure dimension: successful registrations of multi-file
+	// back-ends per shape, requests for their methods and how they ended
+	FSRegs                      map[string]int
+	FSReq, FSServed, FSUnrouted int
 }
 
 func (w *Worker) apply(mux *larking.Mux, op Op) (regErr error, dropped bool, pi *mon.PanicInfo) {
@@ -434,7 +490,8 @@ func (w *Worker) conn(name string) *grpc.ClientConn {
 // Run applies the history to a fresh Mux and checks every step. draws is the
 // number of requests per method and front.
 func (w *Worker) Run(h History, draws int) *Outcome {
-	out := &Outcome{Tags: map[string]int{}}
+	out := &Outcome{Tags: map[string]int{}, FSRegs: map[string]int{}}
+	reqMethods, baseLane := methodsFor(h)
 	seen := map[string]bool{}
 	fail := func(step int, obs, f string, a ...any) {
 		if seen[obs] {
@@ -519,6 +576,9 @@ func (w *Worker) Run(h History, draws int) *Outcome {
 					if prov == "bd2" && m.bdEver2 {
 						m.bd2Since2 = true
 					}
+					if sh := fsOf[prov]; sh != nil {
+						out.FSRegs[sh.Name]++
+					}
 					if prov == "local" {
 						m.local = true
 					} else {
@@ -539,8 +599,14 @@ func (w *Worker) Run(h History, draws int) *Outcome {
 		out.States = append(out.States, op.K+"->"+m.sig())
 
 		// requests after the step
-		for _, md := range methods {
+		for _, md := range reqMethods {
 			live := m.live(md.svc)
+			// the structural class of a method of a multi-file back-end: the
+			// place of its file in the import graph
+			role := ""
+			if r := fsRole[md.svc]; r != "" {
+				role = ":service-in-" + r
+			}
 			if md.svc == "T" && m.conns["bt"] && m.btDead {
 				// registered, never dropped, but down: the request belongs to
 				// that back-end and fails there (Unavailable / 503); it must
@@ -569,6 +635,15 @@ func (w *Worker) Run(h History, draws int) *Outcome {
 				if binding != "" {
 					tagFront = front + "[" + binding + "]"
 				}
+				if role != "" {
+					out.FSReq++
+					switch a.Class {
+					case "served":
+						out.FSServed++
+					case "unimplemented":
+						out.FSUnrouted++
+					}
+				}
 				switch a.Class {
 				case "served":
 					out.Tags[a.Tag]++
@@ -577,14 +652,14 @@ func (w *Worker) Run(h History, draws int) *Outcome {
 						if m.ever[a.Tag] {
 							obs = "served-by-dropped"
 						}
-						fail(step, obs, "request for %s over %s answered by %q, live back-ends in the model: %v", md.full, tagFront, a.Tag, keys(live))
+						fail(step, obs+role, "request for %s over %s answered by %q, live back-ends in the model: %v", md.full, tagFront, a.Tag, keys(live))
 					} else if a.Method != md.full {
 						fail(step, front+":wrong-method", "request for %s over %s was served as %s by %s", md.full, tagFront, a.Method, a.Tag)
 					}
 				case "unimplemented":
 					out.Unimpl++
 					if len(live) > 0 {
-						fail(step, tagFront+":unimplemented-with-live-backend", "request for %s over %s answered Unimplemented/NotFound (%s) while the model has live back-ends %v", md.full, tagFront, a.Detail, keys(live))
+						fail(step, tagFront+":unimplemented-with-live-backend"+role, "request for %s over %s answered Unimplemented/NotFound (%s) while the model has live back-ends %v", md.full, tagFront, a.Detail, keys(live))
 					}
 				case "timeout":
 					out.Incon = append(out.Incon, fmt.Sprintf("request for %s over %s timed out", md.full, tagFront))
@@ -653,7 +728,7 @@ func (w *Worker) Run(h History, draws int) *Outcome {
 				ans := w.doHTTP(s)
 				check("http", s.Binding, ans)
 				if s.Want != nil && ans.Class == "served" && live[ans.Tag] && strings.Join(ans.Items, ",") != strings.Join(s.Want, ",") {
-					fail(step, "http["+s.Binding+"]:wrong-fields-bound", "%s %s was served by %s, which received %v; the request binds %v", s.Verb, s.Path, ans.Tag, ans.Items, s.Want)
+					fail(step, "http["+s.Binding+"]:wrong-fields-bound"+role, "%s %s was served by %s, which received %v; the request binds %v", s.Verb, s.Path, ans.Tag, ans.Items, s.Want)
 				}
 			}
 			for i := 0; i < draws; i++ {
@@ -662,7 +737,7 @@ func (w *Worker) Run(h History, draws int) *Outcome {
 		}
 		// a literal binding of service B on a path that a variable binding
 		// of service A covers too: B's while B has a provider, A's otherwise
-		for i := 0; i < 2; i++ {
+		for i := 0; i < 2 && baseLane; i++ {
 			a := w.doHTTP(reqSpec{Verb: "GET", Path: "/ov/lit/one", Binding: "literal-over-variable"})
 			out.NReq++
 			if ps := w.takePanics(); len(ps) > 0 {
